@@ -121,6 +121,23 @@ func (p *prodProc) kill9() {
 	<-p.done
 }
 
+// waitSimEnd waits until every simulator session started below ctrl has
+// logged its end (sessions.log: "start <pid>" / "end <pid>").
+func waitSimEnd(ctrl string, timeout time.Duration) bool {
+	end := time.Now().Add(timeout)
+	for time.Now().Before(end) {
+		data, err := os.ReadFile(filepath.Join(ctrl, "sessions.log"))
+		if err == nil {
+			st, en := strings.Count(string(data), "start "), strings.Count(string(data), "end ")
+			if st > 0 && st == en {
+				return true
+			}
+		}
+		time.Sleep(5 * time.Millisecond)
+	}
+	return false
+}
+
 func waitFile(path string, timeout time.Duration) bool {
 	end := time.Now().Add(timeout)
 	for time.Now().Before(end) {
@@ -417,8 +434,9 @@ func stackCheck(ctx *core.Ctx, res *core.Result, devTypes []string) {
 			prepareWork(work, j.sc, 1)
 			p := startProd(work, j.sc, "do-approve", j.dev, 0, "ctrl", "")
 			exit, to := p.wait(40 * time.Second)
-			// the simulator writes its transcript when the session ends
-			waitFile(filepath.Join(p.ctrl, "transcript.json"), 3*time.Second)
+			// the simulator rewrites its transcript after every line and logs
+			// "end <pid>" when its session is over: only then is the file final
+			waitSimEnd(p.ctrl, 20*time.Second)
 			st, _ := os.ReadFile(filepath.Join(work, "status", "router"))
 			out <- pr{i, exit, to, render(readTranscript(p.ctrl)), string(st)}
 			os.RemoveAll(work)
@@ -430,7 +448,7 @@ func stackCheck(ctx *core.Ctx, res *core.Result, devTypes []string) {
 		prepareWork(work, j.sc, 1)
 		p := startProd(work, j.sc, "do-approve", j.dev, 0, "ctrl", "")
 		exit, to := p.wait(40 * time.Second)
-		waitFile(filepath.Join(p.ctrl, "transcript.json"), 3*time.Second)
+		waitSimEnd(p.ctrl, 20*time.Second)
 		st, _ := os.ReadFile(filepath.Join(work, "status", "router"))
 		defer os.RemoveAll(work)
 		return pr{i, exit, to, render(readTranscript(p.ctrl)), string(st)}
